@@ -12,7 +12,8 @@ BASELINE = json.load(open('/root/.vp/BASELINE.json'))['cmd'] if Path('/root/.vp/
     'cd /repo && /venv/bin/python -m pytest -ra -q -p no:cacheprovider --timeout=900 --continue-on-collection-errors --junitxml=<file>'
 
 all_ids = [json.loads(ln)['id'] for ln in open(VERIF / 'properties.jsonl')]
-claimed = [i for i in core.all_prop_ids() if i in all_ids]
+ready = set(json.loads((VERIF / 'ready.json').read_text()))
+claimed = [i for i in core.all_prop_ids() if i in all_ids and i in ready]
 reasons = {}
 f = VERIF / 'not_claimed.json'
 if f.exists():
